@@ -12,7 +12,8 @@ IsEvent(k) == l <= Len(Rec) /\ Rec[l].e = k /\ l' = l + 1
 
 TraceCfg == /\ IsEvent("Cfg")
             /\ cfg' = [running |-> Rec[l].running, its |-> Rec[l].its]
-            /\ st' = [k \in 0..255 |-> LinkInit]            \* a Cfg event starts a new run
+            \* a Cfg event starts a new run; a configured RDH version (custom checks) is the reference version of every link instead of the first one it sees
+            /\ st' = [k \in 0..255 |-> IF "cver" \in DOMAIN Rec[l] THEN [LinkInit EXCEPT !.firstVer = Rec[l].cver] ELSE LinkInit]
 
 TracePkt == /\ IsEvent("Pkt")
             /\ LET ev == Rec[l]
